@@ -63,7 +63,7 @@ def run(shard, ctx):
     dense = shard.get("dense", False)
     workloads.run_remap_batch(
         shard, ctx, kinds=("pv",), oracle=lambda c, o, x: oracle(c, o, x, dense),
-        opts={"max_texels": 12, "small_t": True} if dense else None,
+        opts={"max_texels": 12, "small_t": True, "no_join_gap": 0.1} if dense else {"no_join_gap": 0.1},
     )
 
 
@@ -89,6 +89,7 @@ def plan(tier, seed):
 def gates(c, tier):
     need = {
         "layout-ok": 3000,
+        "label:cfg:no-join-gap-configured": 1000,
         "cores:placed": 5000,
         "cuts:deep": 1000,
         "cases:t=1": 100,
